@@ -158,6 +158,17 @@ def run_impl(case):
     groups = {}  # runner call (request index) -> [(sent, received)]: the endpoint's request log
     composite = bool(case.get("composite"))
 
+    def flat_wires(q):
+        """wire requests of a program in program order (streams of a `par` group one after the other)"""
+        ws = []
+        for t in prog_of(q):
+            if t["t"] == "wire":
+                ws.append(t)
+            elif t["t"] == "par":
+                for st in t["streams"]:
+                    ws.extend(st)
+        return ws
+
     def prog_of(q):
         """request program: wire requests in (nested) request contexts; a plain request is one wire request"""
         if "prog" in q:
@@ -184,8 +195,7 @@ def run_impl(case):
         async def perform_request(self, method, path, headers=None, body=None, params=None):
             _, i, k = path.split("/")
             i, k = int(i), int(k)
-            wires = [t for t in prog_of(reqs[i]) if t["t"] == "wire"]
-            tok = wires[k]
+            tok = flat_wires(reqs[i])[k]
             state["calls_seen"].add(i)
             if case.get("complete_at") is not None and i == case["complete_at"]:
                 complete.set()
@@ -201,6 +211,24 @@ def run_impl(case):
                     pos = await run_tokens(es, toks, pos + 1, q, i)
             elif tok["t"] == "exit":
                 return pos + 1
+            elif tok["t"] == "par":
+                # concurrent streams, each in its own asyncio task (a child task inherits the context variable's value, i.e. a
+                # reference to the enclosing request context); every wire request of a stream has its own nested context
+                async def stream(ws):
+                    for w in ws:
+                        with es.new_request_context():
+                            await es.request(q2f(w["service"]), i, q["out"] if w["fails"] else None)
+
+                tasks = [asyncio.create_task(stream(ws)) for ws in tok["streams"]]
+                try:
+                    await asyncio.gather(*tasks)
+                except BaseException:
+                    for tk in tasks:
+                        if not tk.done():
+                            tk.cancel()
+                    await asyncio.gather(*tasks, return_exceptions=True)
+                    raise
+                pos += 1
             else:
                 gap = q2f(tok["gap"])
                 if gap > 0:
@@ -264,8 +292,16 @@ def run_impl(case):
                 cancel.set()
             if composite:
                 # parameters of the real `composite` runner: one sequential stream of raw requests
-                n = len([t for t in prog_of(reqs[i]) if t["t"] == "wire"])
-                return {"requests": [{"operation-type": "raw-request", "name": f"sub-{k}", "path": f"/{i}/{k}"} for k in range(n)]}
+                items, k = [], 0
+                for t in prog_of(reqs[i]):
+                    if t["t"] == "wire":
+                        items.append({"operation-type": "raw-request", "name": f"sub-{k}", "path": f"/{i}/{k}"})
+                        k += 1
+                    elif t["t"] == "par":
+                        for st in t["streams"]:
+                            items.append({"stream": [{"operation-type": "raw-request", "name": f"sub-{k + j}", "path": f"/{i}/{k + j}"} for j in range(len(st))]})
+                            k += len(st)
+                return {"requests": items}
             return {"i": i}
 
     class SourceWithProgress(Source):
@@ -484,7 +520,7 @@ def run_impl(case):
         called = sorted(groups) if composite else list(range(state["calls"]))
         out["wire_groups"] = [groups.get(i, []) for i in called]
         # per runner call: (first request sent, last response received); a call without any wire request has no span
-        out["wire"] = [(g[0][0], g[-1][1]) if g else None for g in out["wire_groups"]]
+        out["wire"] = [(min(a for a, _ in g), max(b for _, b in g)) if g else None for g in out["wire_groups"]]
         out["partition_args"] = list(getattr(source, "partition_args", ()))
         return out
     finally:
@@ -525,7 +561,7 @@ def canon_impl(o):
         "sched": [str(frac(t["sched"])) for t in o.get("tuples", [])],
         "tuple_warmup": [t["warmup"] for t in o.get("tuples", [])],
         "tuple_pc": [None if t["pc"] is None else str(frac(t["pc"])) for t in o.get("tuples", [])],
-        "wire": [[[str(frac(a)), str(frac(b))] for a, b in g] for g in o.get("wire_groups", [])],
+        "wire": [sorted([str(frac(a)), str(frac(b))] for a, b in g) for g in o.get("wire_groups", [])],
         "rates": [str(frac(r)) for r in o.get("rates", [])],
         "complete_set": o.get("complete_set"),
         "end": None if o.get("end") is None else str(frac(o["end"])),
@@ -543,7 +579,7 @@ def canon_model(m):
         "sched": [str(frac(x)) for x in r["sched"]],
         "tuple_warmup": r["tuple_warmup"],
         "tuple_pc": [None if x is None else str(frac(x)) for x in r["tuple_pc"]],
-        "wire": [[[str(frac(a)), str(frac(b))] for a, b in g] for g in r["wire"]],
+        "wire": [sorted([str(frac(a)), str(frac(b))] for a, b in g) for g in r["wire"]],
         "rates": [str(frac(x)) for x in r["rates"]],
         "complete_set": r["complete_set"],
         "end": str(frac(r["end"])),
@@ -851,6 +887,75 @@ def gen_prog(rng, exact, base, out, flat_composite=False):
     return block(wires, 0)
 
 
+def gen_stream_prog(rng, exact, base, out, sim):
+    """a composite-like request structure: top-level wire requests and groups of 1..3 concurrent streams (each a sequence of 1..3
+    wire requests) in any order — first send and / or last response inside a stream, everything inside streams, a single stream;
+    a failing wire request only at the top level or in a group with one stream (cancellation of siblings: C18)"""
+    def dur():
+        return qs(gen_duration(rng, exact, base / 2, "timing"))
+
+    shape = rng.choice(["mixed", "mixed", "streams-first", "streams-last", "all-streams", "all-streams", "single-stream"])
+    n_items = rng.randrange(1, 5)
+    kinds = []
+    for k in range(n_items):
+        if shape == "all-streams" or shape == "single-stream":
+            kinds.append("par")
+        elif shape == "streams-first":
+            kinds.append("par" if k == 0 else rng.choice(["wire", "par"]))
+        elif shape == "streams-last":
+            kinds.append("par" if k == n_items - 1 else rng.choice(["wire", "par"]))
+        else:
+            kinds.append(rng.choice(["wire", "par"]))
+    toks = []
+    for kd in kinds:
+        if kd == "wire":
+            w = {"t": "wire", "gap": qs(gen_overhead(rng, exact)) if (sim and rng.random() < 0.3) else "0/1", "service": dur(), "fails": False}
+            toks += [{"t": "enter"}, w, {"t": "exit"}]
+        else:
+            ns = 1 if shape == "single-stream" else rng.choice([1, 2, 2, 3])
+            streams = [[{"service": dur(), "fails": False} for _ in range(rng.randrange(1, 4))] for _ in range(ns)]
+            if toks and toks[-1]["t"] == "par":
+                # consecutive `stream` items of a composite run concurrently: one group (at most 3 streams)
+                toks[-1]["streams"] = (toks[-1]["streams"] + streams)[:3]
+            else:
+                toks.append({"t": "par", "streams": streams})
+    if out["k"] in ("api", "transport", "timeout", "tls", "connection"):
+        spots = []
+        for t in toks:
+            if t["t"] == "wire":
+                spots.append(t)
+            elif t["t"] == "par" and len(t["streams"]) == 1:
+                spots.extend(t["streams"][0])
+        if spots:
+            rng.choice(spots)["fails"] = True
+        else:
+            toks.append({"t": "enter"})
+            toks.append({"t": "wire", "gap": "0/1", "service": dur(), "fails": True})
+            toks.append({"t": "exit"})
+    return toks
+
+
+def add_stream_programs(rng, case, exact, composite):
+    tp = _tput_reading(case)
+    base = Fraction(1, 4)
+    if tp is not None and tp[0] > 0:
+        base = min(Fraction(case["task"]["clients"]) / tp[0], Fraction(30))
+        if exact:
+            base = Fraction(float(base)).limit_denominator(1024) or Fraction(1, 4)
+    for q in case["reqs"]:
+        if composite:
+            q["out"] = q["out"] if q["out"]["k"] in ("api", "transport", "timeout") else {"k": "dict", "w": 1, "unit": "ops", "success": None, "tput": None, "etype": None}
+            if q["out"]["k"] == "transport":
+                q["out"]["status"] = None
+            q["post"] = "0/1"
+        elif q["out"]["k"] in ("key", "value"):
+            q["out"] = {"k": "tuple", "w": 1, "unit": "ops"}
+        q["prog"] = gen_stream_prog(rng, exact, base, q["out"], sim=not composite)
+        q.pop("pre", None)
+        q.pop("service", None)
+    return case
+
+
 def add_programs(rng, case, exact, share=0.6, flat_composite=False):
     """turn the plain requests of a case into request programs (in place)"""
     tp = _tput_reading(case)
@@ -883,6 +988,8 @@ def first_gap(q):
     for t in q["prog"]:
         if t["t"] == "wire":
             return max(Fraction(0), Fraction(t["gap"]))
+        if t["t"] == "par" and any(t["streams"]):
+            return Fraction(0)
     return None
 
 
@@ -1043,7 +1150,7 @@ def oracle_c04(ctx, case, impl):
         if len(grp) > 1:
             ctx.count("oracle:multi-wire-sample")
         if any(Fraction(a) < w0 or Fraction(b) > w1 for a, b in grp):
-            raise HarnessError("endpoint log of one runner call is not ordered")
+            raise HarnessError("endpoint log of one runner call lies outside its own span")
         if not (service >= 0 and geq(processing, service, exact)):
             ctx.fail("service-range", f"sample {i}: 0 <= service <= processing violated", None, [str(service), str(processing)])
         if s["client"] != case["client"]["id"] or not s["task_is_task"] or s["warmup"] != tup["warmup"] or Fraction(s["start"]) != w0:
